@@ -448,6 +448,13 @@ class Legacy(object):
                 return True  # the outputs were just emptied: the loop body never runs, no input is touched
             return 'a loop that edits the inputs is bounded by the number of outputs (`%s`)' % it
         else:
+            import re as _re
+            m_ = _re.match(r'^range\((\d+), len\(%s\.vin\)\)$' % _re.escape(sc), it)
+            if m_ and int(m_.group(1)) > 0 and isinstance(s.target, ast.Name) and any(
+                    isinstance(x, ast.Subscript) and norm(x.value) == '%s.vin' % sc and norm(x.slice) == s.target.id for x in ast.walk(s)):
+                # the loop that treats "the other inputs" starts after the first one(s): input 0 is an other input
+                # whenever a later one is signed
+                return 'DEFECT: the loop over the inputs starts at %s (`%s`): the first input(s) are never visited, although they are other inputs whenever a later one is signed' % (m_.group(1), it)
             return None
         if s.orelse:
             return None
